@@ -534,6 +534,13 @@ impl Hist {
                 let _ = self.take_log(r);
                 (line.to_string(), vec!["sync aborted".into()])
             }
+            ["D"] => {
+                // the server discards every version before its snapshot's version
+                let mut c = self.chain.borrow_mut();
+                let v = c.snapshot.as_ref().map(|x| x.0).unwrap_or(0);
+                c.discarded = v;
+                (line.to_string(), vec![format!("discarded {}", v)])
+            }
             ["Q"] => (line.to_string(), self.dump()),
             [] => (line.to_string(), vec![]),
             _ => bad(),
@@ -545,6 +552,7 @@ pub struct GenCfg {
     pub max_len: usize,
     pub stepped: bool,
     pub faults: bool,
+    pub snapshots: bool,
 }
 
 fn gen_str(rng: &mut Rng, pool: &[&str]) -> String {
@@ -553,7 +561,14 @@ fn gen_str(rng: &mut Rng, pool: &[&str]) -> String {
 
 /// generate one history (protocol lines, without `Q` at the end)
 pub fn gen_case(rng: &mut Rng, cfg: &GenCfg) -> (usize, u64, Vec<String>) {
-    let nreps = 2 + rng.below(3) as usize;
+    let mut nreps = 2 + rng.below(3) as usize;
+    if cfg.snapshots && nreps < 3 {
+        nreps = 3;
+    }
+    // with --snapshots the last replica joins late, after the server discarded old versions
+    let active = if cfg.snapshots { nreps - 1 } else { nreps };
+    let discard_at = if cfg.snapshots { 2 + rng.below(cfg.max_len as u64 / 2) as usize } else { usize::MAX };
+    let mut joined = !cfg.snapshots;
     let sqlite_mask = if rng.chance(1, 5) { rng.below(1 << nreps) } else { 0 };
     let ntasks = 1 + rng.below(3);
     let keys = ["k", "description", "p\"q\\\n", "é✓"];
@@ -563,8 +578,32 @@ pub fn gen_case(rng: &mut Rng, cfg: &GenCfg) -> (usize, u64, Vec<String>) {
     let len = 3 + rng.below(cfg.max_len as u64 - 2) as usize;
     let mut lines = vec![format!("R {}", nreps)];
     let mut stepping: Vec<bool> = vec![false; nreps];
-    for _ in 0..len {
-        let r = rng.below(nreps as u64) as usize;
+    for step in 0..len {
+        if step == discard_at {
+            // quiesce the active replicas, make one of them upload a snapshot, discard
+            for r in 0..active {
+                if stepping[r] {
+                    lines.push(format!("A {}", r));
+                    stepping[r] = false;
+                }
+            }
+            for _ in 0..2 {
+                for r in 0..active {
+                    lines.push(format!("S {} 0 n", r));
+                }
+            }
+            lines.push(format!("C 0 create {}", 1 + rng.below(ntasks)));
+            lines.push(format!("C 0 update {} {} {} 7 0", 1 + rng.below(ntasks), gen_str(rng, &keys), gen_str(rng, &vals)));
+            lines.push("S 0 0 h".to_string());
+            for r in 1..active {
+                lines.push(format!("S {} 1 n", r));
+            }
+            lines.push("D".to_string());
+            // the late joiner starts empty: its first action is a sync (it gets the snapshot)
+            lines.push(format!("S {} {} n", nreps - 1, rng.below(2)));
+            joined = true;
+        }
+        let r = rng.below(if joined { nreps } else { active } as u64) as usize;
         let u = 1 + rng.below(ntasks);
         let roll = rng.below(100);
         if stepping[r] {
